@@ -10,8 +10,10 @@ structure St where
   t : TA
   hosts : List Host
   down : List Nat
+  evs : List (Ev × Host)   -- the notifier calls so far, NEWEST first
+  hot : Bool               -- the counter was preset into the region of KF-C11-3 (≥ 2^63 − 4096)
 
-def init : St := ⟨false, TA.new (Pol.new .rr 0 0) false false false, [], []⟩
+def init : St := ⟨false, TA.new (Pol.new .rr 0 0) false false false, [], [], [], false⟩
 
 def nat (s : String) : Nat := s.toNat?.getD 0
 def natList (s : String) : List Nat := if s == "-" then [] else (s.splitOn ",").map nat
@@ -19,6 +21,43 @@ def showIds (l : List Host) : String := if l.isEmpty then "-" else ",".intercala
 
 def St.host? (s : St) (id : Nat) : Option Host := s.hosts.find? (fun h => h.id == id)
 def St.up (s : St) : Nat → Bool := fun id => !s.down.contains id
+
+/-- status of a host according to the history of notifier calls (the property's definition) -/
+def St.status (s : St) (h : Host) : Status := statusOf s.evs.reverse h
+
+def insertNat (x : Nat) : List Nat → List Nat
+  | [] => [x]
+  | y :: r => if x ≤ y then x :: y :: r else y :: insertNat x r
+def sortNat (l : List Nat) : List Nat := l.foldl (fun acc x => insertNat x acc) []
+def showNats (l : List Nat) : String := if l.isEmpty then "-" else ",".intercalate (l.map toString)
+
+def nodupHosts : List Host → Bool
+  | [] => true
+  | h :: r => !r.contains h && nodupHosts r
+
+/-- two defined host objects share a connect address -/
+def St.alias (s : St) : Bool :=
+  s.hosts.any (fun a => s.hosts.any (fun b => a.id != b.id && a.addr == b.addr))
+
+def belowB (p : Pol) : Bool := p.layers.all (fun l => decide (p.ctr + 1 + l.length < 9223372036854775808))
+
+/-- the excluded conditions of `C11_history_exact_partial` (+ its assumptions), decided on the model state:
+alias, counter region of KF-C11-3, a ghost host (KF-C11-4), a replica table with a duplicate, a stale
+replica in the specified head (KF-C11-5) -/
+def St.offerExcluded (s : St) (σ : List Host → List Host) (rk : Option (Nat × Nat)) : Bool :=
+  let reps : List Host := match rk with
+    | none => []
+    | some (ks, tok) => match s.t.replicasFor ks tok with
+      | .hosts l ft => if ft && s.t.shuffle then σ l else l
+      | _ => []
+  s.alias || s.hot || !belowB s.t.pol ||
+  s.hosts.any (fun h => (s.status h).ghost) ||
+  s.t.replicas.any (fun e => e.2.any (fun f => !nodupHosts f.2)) ||
+  (specHead s.t.pol.tier s.t.pol.maxTier s.up s.t.nonlocal reps).any (fun h => !(s.status h).expected true)
+
+/-- the SPECIFICATION's answer to `offer`: the ids of the defined hosts the history expects, sorted -/
+def St.specOffer (s : St) : String :=
+  showNats (sortNat ((s.hosts.filter (fun h => (s.status h).expected (s.up h.id))).map (·.id)))
 
 def snapshot (s : St) : String :=
   let p := s.t.pol
@@ -42,13 +81,21 @@ def parseTable (s : St) (ws : List String) : List (Nat × List Host) :=
   add|remove|hup|hdown <id>                        AddHost / RemoveHost / HostUp / HostDown → snapshot of the lists
   state <id> <1|0>                                 setState(NodeUp|NodeDown)
   repl <ks> <tok>:<ids> ...                        install the replica table of a keyspace
-  pick <ks|-> <tok|-> <limit> <perm;perm;...|->    Pick + up to <limit> iterator calls → ids offered -/
+  pick <ks|-> <tok|-> <limit> <perm;perm;...|->    Pick + up to <limit> iterator calls → ids offered
+  ctr <n>                                          the (fallback) policy has served n picks (VerifSetPickCount)
+  offer <ks|-> <tok|-> <perm;...|->                SPEC-BACKED: Pick + full drain → sorted ids; the answer is the
+                                                   specification's (hosts expected by the history), which
+                                                   `C11_history_exact_partial` proves to be what the model offers;
+                                                   `excluded` (nothing done) under an excluded condition -/
 def step (s : St) (ws : List String) : St × String :=
   match ws with
   | ["reset", k, ta, ldc, lrack, sh, nl, ps] =>
     let kind := if k == "rr" then Kind.rr else if k == "dc" then Kind.dc else Kind.rack
     ({ isTA := ta == "1", t := TA.new (Pol.new kind (nat ldc) (nat lrack)) (sh == "1") (nl == "1") (ta == "1" && ps == "1"),
-       hosts := [], down := [] }, "ok")
+       hosts := [], down := [], evs := [], hot := false }, "ok")
+  | ["ctr", n] =>
+    ({ s with t := { s.t with pol := s.t.pol.setCtr (nat n) },
+              hot := decide (nat n % 18446744073709551616 ≥ 9223372036854775808 - 4096) }, "ok")
   | ["host", id, addr, dc, rack, toks] =>
     ({ s with hosts := ⟨nat id, nat addr, nat dc, nat rack, natList toks⟩ :: s.hosts.filter (fun h => h.id != nat id) }, "ok")
   | ["race", _] => (s, "ok")   -- thorough tier: concurrent run on the real code (no panic, no nil host); nothing to model
@@ -61,7 +108,9 @@ def step (s : St) (ws : List String) : St × String :=
         else if op == "hup" then s.t.hostUp h
         else if op == "hdown" then s.t.hostDown h
         else s.t
-      let s' := { s with t := t' }
+      let ev? : Option Ev := if op == "add" then some .add else if op == "remove" then some .remove
+        else if op == "hup" then some .hup else if op == "hdown" then some .hdown else none
+      let s' := { s with t := t', evs := match ev? with | some e => (e, h) :: s.evs | none => s.evs }
       (s', snapshot s')
   | ["state", id, v] =>
     ({ s with down := if v == "1" then s.down.filter (· != nat id) else nat id :: s.down.filter (· != nat id) }, "ok")
@@ -73,7 +122,14 @@ def step (s : St) (ws : List String) : St × String :=
     let (t', r) := s.t.pick s.up (applyPerm ps) rk (nat limit)
     ({ s with t := t' }, match r with
       | .seq l => showIds l
-      | .crash => "crash:nil-host-dereference")
+      | .crash => "crash:index-out-of-range")
+  | ["offer", ks, tok, perms] =>
+    let rk := if tok == "-" || ks == "-" then none else some (nat ks, nat tok)
+    let ps := if perms == "-" then [] else (perms.splitOn ";").map natList
+    if s.offerExcluded (applyPerm ps) rk then (s, "excluded")
+    else
+      let (t', _) := s.t.pick s.up (applyPerm ps) rk 1000
+      ({ s with t := t' }, s.specOffer)
   | _ => (s, "bad-op")
 
 end Driver.C11
